@@ -14,6 +14,9 @@ class SeqAbstraction:
     """Over-approximate formulas over sequences by pure integer/boolean ones: |t| becomes an integer unknown >= 0 (after
     z3's own rewriting of lengths of concatenations), every other atom that mentions a sequence becomes a boolean unknown
     (the same unknown for the same atom).  unsat of the abstraction implies unsat of the original."""
+    _shared_cache = {}      # ast id -> (ast kept alive, translation, side conditions): hypotheses are shared by many obligations
+    _keep = []
+
     def __init__(self):
         self.cache, self.side = {}, []
 
@@ -63,8 +66,24 @@ class SeqAbstraction:
             return z3.Const(f'term!{t.get_id()}', srt)
 
     def formulas(self, fs):
-        out = [self.tr(ssimplify(f)) for f in fs]
-        return out + self.side
+        out = []
+        sides = []
+        sc = SeqAbstraction._shared_cache
+        for f in fs:
+            k = f.get_id()
+            hit = sc.get(k)
+            if hit is None:
+                a = SeqAbstraction.__new__(SeqAbstraction)
+                a.cache, a.side = {}, []
+                t = a.tr(ssimplify(f))
+                hit = (f, t, list(a.side))
+                if len(sc) > 200000:
+                    sc.clear()
+                sc[k] = hit
+            out.append(hit[1])
+            sides.extend(hit[2])
+        self.side = sides
+        return out + sides
 
 
 def abstract_check(formulas, timeout_ms=2000):
@@ -112,6 +131,42 @@ def cvc5_check(text, timeout_s):
 
 def z3old_check(text, timeout_s):
     return run_cli(['/usr/bin/z3', '-smt2', f'-T:{int(timeout_s)}'], text, timeout_s)
+
+
+_BIG = None
+
+
+def has_big_numeral(formulas, limit=100000):
+    import re
+    global _BIG
+    if _BIG is None:
+        _BIG = re.compile(r'(?<![\w!.])\d{6,}(?![\w!])')
+    for f in formulas:
+        if _BIG.search(f.sexpr()):
+            return True
+    return False
+
+
+def inprocess_check(formulas, timeout_s, on_model=None):
+    import threading
+    s = z3.Solver()
+    s.set('timeout', int(timeout_s * 1000))
+    s.add(*formulas)
+    timer = threading.Timer(timeout_s + 0.5, s.ctx.interrupt)
+    timer.start()
+    try:
+        res = str(s.check())
+    except z3.Z3Exception:
+        res = 'unknown'
+    finally:
+        timer.cancel()
+    payload = None
+    if res == 'sat' and on_model is not None:
+        try:
+            payload = on_model(s.model())
+        except BaseException as e:      # noqa
+            payload = {'error': repr(e)}
+    return res, payload
 
 
 def isolated_check(formulas, timeout_s, on_model=None, mem_mb=None):
@@ -176,8 +231,22 @@ def isolated_check(formulas, timeout_s, on_model=None, mem_mb=None):
         return 'unknown', None
 
 
+_small_cache = {}
+
+
 def small(t, limit=400):
     """True if the term has at most `limit` nodes (DAG-unaware count with early exit)"""
+    k = (t.get_id(), limit)
+    if k in _small_cache:
+        return _small_cache[k][1]
+    r = _small(t, limit)
+    if len(_small_cache) > 200000:
+        _small_cache.clear()
+    _small_cache[k] = (t, r)
+    return r
+
+
+def _small(t, limit):
     n = 0
     stack = [t]
     while stack:
@@ -233,7 +302,14 @@ def discharge(ob, timeout_ms=None, portfolio='fallback', on_model=None):
     fs = list(ob.hyps) + [z3.Not(ob.goal)]
     if abstract_check(fs) == 'unsat':
         return dict(status='discharged', solver='z3-5.1(seq-free abstraction)', seconds=time.time() - t0, model=None, by={'z3-5.1': 'unsat'})
-    r, payload = isolated_check(fs, timeout_ms / 1000.0, on_model)
+    r, payload = None, None
+    if not has_big_numeral(fs):
+        # no constant that could force z3's sequence solver to build a huge model: solve in-process (forking costs ~40 ms per query)
+        r, payload = inprocess_check(fs, min(timeout_ms, 5000) / 1000.0, on_model)
+        if r == 'unknown':
+            r = None
+    if r is None:
+        r, payload = isolated_check(fs, timeout_ms / 1000.0, on_model)
     by['z3-5.1'] = r
     status = {'unsat': 'discharged', 'sat': 'refuted'}.get(r, 'unknown')
     solver = 'z3-5.1'
